@@ -10,6 +10,8 @@ A schedule is a JSON list of ops:
   ['ka'] ['update'] ['eor'] ['refresh'] ['notif', code, subcode]
   ['fault', name]           send one erroneous input (see FAULTS)
   ['raw', hex]              send these bytes
+  ['fault-close', name, rst] send one erroneous input and close (or reset) the transport in the same step
+  ['partial', kind, n]      send only the first n bytes of a valid message
   ['eof'] ['rst'] ['halfclose']
   ['teardown', code]        API-level teardown of the neighbor (Reactor.teardown_peer)
   ['reload']                configuration reload through the signal flag
@@ -239,6 +241,15 @@ class Runner:
                     await r.send_msg(codec.NOTIFICATION, bytes([op[1], op[2]]))
                 elif kind == 'fault':
                     await r.send(fault_bytes(op[1]))
+                elif kind == 'fault-close':
+                    # the erroneous input and the loss of the transport arrive together: exabgp reads the fault
+                    # from a connection it can no longer write to
+                    await r.send(fault_bytes(op[1]) if op[1] != 'bad-open' else codec.frame(codec.OPEN, open_body('bad-as')))
+                    r.close(reset=bool(op[2]) if len(op) > 2 else False)
+                elif kind == 'partial':
+                    # the first op[2] bytes of a valid message, then nothing
+                    full = {'open': codec.frame(codec.OPEN, open_body('valid')), 'keepalive': codec.frame(codec.KEEPALIVE, b''), 'update': codec.frame(codec.UPDATE, UPDATE_EBGP)}[op[1]]
+                    await r.send(full[: max(1, min(int(op[2]), len(full) - 1))])
                 elif kind == 'raw':
                     await r.send(bytes.fromhex(op[1]))
                 elif kind == 'eof':
